@@ -110,7 +110,7 @@ type filterOp struct {
 func runFilter(cfg Cfg) {
 	s := NewStream(cfg.Out, "filter")
 	defer s.Close()
-	s.Rule = "random Add/Remove/Contains histories crossing the list->maps switch (listSize from the code), prefix lengths 0..32, non-canonical networks, duplicates, absent removals, invalid arguments, probes at first/last address of ranges and their outside neighbours in 4- and 16-byte form; non-trivial = a Contains probe whose answer is decided by a stored range (distinct by (state digest, probe))"
+	s.Rule = "random Add/Remove/Contains histories crossing the list->maps switch (listSize from the code), prefix lengths 0..32, non-canonical networks, duplicates, absent removals, invalid arguments, draining to empty and a second growth past the list size, re-probes of recent hits after removals, probes at first/last address of ranges and their outside neighbours in 4- and 16-byte form; non-trivial = a Contains probe whose answer is decided by a stored range (distinct by (state digest, probe))"
 	rng := NewRng(cfg.Seed)
 	ls := netutil.VerifListSize()
 	nHist := cfg.N(120, 1500)
@@ -328,6 +328,27 @@ func runFilter(cfg Cfg) {
 					s.Violate("membership", fmt.Sprintf("after draining the filter Contains(%v) = %v, prefix-set says %v", ip4(a), got, want), hist2)
 				}
 			}
+		}
+		if h%8 == 7 {
+			// second life: after the drain the filter grows past the list size once more (fresh ranges),
+			// and the ranges of its first life - all removed - are probed again
+			for i := 0; i < ls+30; i++ {
+				p := pfx{uint32(40+r.Intn(3))<<24 | uint32(r.Intn(1<<16))<<8, 17 + r.Intn(8)}
+				ipb, mb := []byte(ip4(p.net)), []byte(net.CIDRMask(p.ones, 32))
+				err := f.Add(&net.IPNet{IP: ipb, Mask: mb})
+				s.Line("add "+hx(ipb)+" "+hx(mb), errName(err)+" "+filterBrief(f))
+				hist = append(hist, filterOp{"add", hx(ipb), hx(mb)})
+				spec[pfx{p.net & maskN(p.ones), p.ones}] = true
+				if i%8 == 7 && len(pool) > 0 {
+					q := Pick(r, pool)
+					probeAt(q.net&maskN(q.ones)+uint32(r.U64())&^maskN(q.ones), r.Chance(35))
+				}
+			}
+			for i := 0; i < 60 && len(pool) > 0; i++ {
+				q := Pick(r, pool)
+				probeAt(q.net&maskN(q.ones)+uint32(r.U64())&^maskN(q.ones), r.Chance(35))
+			}
+			s.Count("history.second-life")
 		}
 		s.Line("dump", filterDump(f))
 		st := f.VerifState()
